@@ -700,6 +700,11 @@ func init() {
 		}
 		fr.r.onceDone[p] = true
 		_ = st
+		// what runs under a Once happens before every return of Do: for the
+		// lock-set view of the traces it is initialisation, not a shared access
+		saved := fr.r.tracing
+		fr.r.tracing = false
+		defer func() { fr.r.tracing = saved }()
 		fr.r.call(fr, token.NoPos, args[1], nil)
 		return nil
 	}
@@ -747,6 +752,20 @@ func init() {
 			return tTrue
 		}
 		return tFalse
+	}
+
+	// atomic accesses are synchronised by definition: not recorded as shared
+	// accesses of a trace (a package-level counter is not a data race)
+	for name, f := range intrinsics {
+		if strings.HasPrefix(name, "sync/atomic.") {
+			f := f
+			intrinsics[name] = func(fr *frame, args []value) value {
+				saved := fr.r.tracing
+				fr.r.tracing = false
+				defer func() { fr.r.tracing = saved }()
+				return f(fr, args)
+			}
+		}
 	}
 
 	// sort.Slice: identity permutation; the comparator is exercised once per
@@ -1584,6 +1603,76 @@ func init() {
 			fr.r.obligs = append(fr.r.obligs, obligRec{Kind: "atomicity", Label: "C11.operation-is-one-critical-section", Status: "proved", Detail: "concrete", Entry: fr.r.entry})
 		}
 		return nil
+	}
+}
+
+func init() {
+	// The standard named curves: constructing them runs big-number code that
+	// is out of reach (assembly kernels).  Without a harness model each is an
+	// opaque object with a stable identity per run (curve arithmetic on it is
+	// not modelled: methods are no-ops, as for other opaque values).
+	for _, n := range []string{"P224", "P256", "P384", "P521"} {
+		name := "crypto/elliptic." + n
+		intrinsics[name] = func(fr *frame, args []value) value {
+			if v, ok := fr.r.curves[name]; ok {
+				return v
+			}
+			v := iface{t: opaqueIfaceType, v: &opaque{tag: "curve:" + name}}
+			fr.r.curves[name] = v
+			fr.r.note("%s() is an opaque curve object (no harness model given)", name)
+			return v
+		}
+	}
+}
+
+// notIntrinsic: returned by an intrinsic that declines (the call proceeds as
+// if there were no intrinsic)
+var notIntrinsic value = &opaque{tag: "not-intrinsic"}
+
+func init() {
+	// encoding/json.Encoder on top of whatever contract model the harness
+	// registered for encoding/json.Marshal: Encode(v) writes Marshal(v) and a
+	// newline to the writer the encoder was made for.  Without such a model
+	// the real code runs (and is usually beyond reach).
+	intrinsics["encoding/json.NewEncoder"] = func(fr *frame, args []value) value {
+		if fr.r.eng.modelFor("encoding/json.Marshal") == nil {
+			return notIntrinsic
+		}
+		res := fr.fn.Signature.Results().At(0).Type()
+		var cell value = zero(deref(res))
+		p := &cell
+		fr.r.jsonEncW[p] = args[0]
+		return p
+	}
+	intrinsics["(*encoding/json.Encoder).Encode"] = func(fr *frame, args []value) value {
+		m := fr.r.eng.modelFor("encoding/json.Marshal")
+		p, _ := args[0].(*value)
+		w, known := fr.r.jsonEncW[p]
+		if m == nil || !known {
+			return notIntrinsic
+		}
+		out := fr.r.callSSA(fr, token.NoPos, m, []value{args[1]}, nil).(tuple)
+		if e, isIface := out[1].(iface); isIface && e.t != nil {
+			return out[1]
+		}
+		text, _ := out[0].([]value)
+		data := append(append([]value(nil), text...), mkBV(8, '\n'))
+		wi := w.(iface)
+		write := fr.r.eng.prog.LookupMethod(wi.t, nil, "Write")
+		if write == nil {
+			panic(engineError{"json.Encoder: the writer's dynamic type has no Write method"})
+		}
+		res := fr.r.callSSA(fr, token.NoPos, write, []value{wi.v, data}, nil).(tuple)
+		return res[1]
+	}
+	intrinsics["(*encoding/json.Encoder).SetEscapeHTML"] = func(fr *frame, args []value) value {
+		if p, _ := args[0].(*value); p != nil {
+			if _, known := fr.r.jsonEncW[p]; known {
+				fr.r.note("json.Encoder.SetEscapeHTML is ignored: the harness's Marshal model decides the escaping")
+				return nil
+			}
+		}
+		return notIntrinsic
 	}
 }
 
